@@ -23,7 +23,7 @@ CHECKS = {
  'C05': dict(level='exploration', tech='exhaustive (program x hash seed x in-process history) enumeration in fresh processes with harness-controlled hash seeds',
    text="Every source of nondeterminism the compiler has (std HashMap seeds, state left behind by an earlier compile() in the same process) is owned by the harness: a getrandom() shim supplies the hash seed, and each corpus program (some with their own -D options, some defining the same macro name with different shapes) is compiled under every seed of the tier and after every other corpus program; the full compilation record must be byte-identical. The check proves on a probe map that the seeds change iteration order.", ref='4 C05'),
  'C06': dict(level='exploration', tech='bounded exhaustive enumeration of (prefix construct x error kind x placement) with a reference line map',
-   text="All combinations of 19 line-shifting prefix constructs (block comments, continuation lines, multi-line macros, conditionals, includes of C and assembler files with and without final newline, non-ASCII text) x 18 error kinds (preprocessor, syntax, semantic, generator stage in statements and in local initialisers) x 5 placements: the diagnostic must name the file, physical line and include chain computed by an independent line accounting; the preprocessor line map is checked against the reference on every line.", ref='4 C06'),
+   text="All combinations of 20 line-shifting prefix constructs (directives written with tabs, block comments, continuation lines, multi-line macros, conditionals, includes of C and assembler files with and without final newline, non-ASCII text) x 18 error kinds (preprocessor, syntax, semantic, generator stage in statements and in local initialisers) x 5 placements: the diagnostic must name the file, physical line and include chain computed by an independent line accounting; the preprocessor line map is checked against the reference on every line.", ref='4 C06'),
  'C08': dict(level='exploration', tech='bounded exhaustive enumeration of macro definition sets x use sites against a reference expander',
    text="22 definition sets (object-like chains, bodies that start with a parenthesised identifier, function-like macros with 1-3 parameters, parameters named like macros, nested invocations, redefinition, #undef, -D options) x all use-site fillers: the preprocessed text and the compiled constants must equal a reference expander written for the documented semantics.", ref='4 C08'),
  'C09': dict(level='exploration', tech='bounded exhaustive enumeration of literal atoms x places, decoded bytes compared with a reference decoder',
